@@ -500,12 +500,251 @@ def run_sampling_affine(out, ctx):
                      case, impl=[m2, c2], model=[wm, wc])
 
 
+# --------------------------------------------------------------------------- broadcasting sweep (KL, log_prob, sums, expand)
+
+SW_SIZES = (1, 2, 3)
+SW_SHAPES = [()] + [(a,) for a in SW_SIZES] + [(a, b) for a in SW_SIZES for b in SW_SIZES]
+SW_REPS = ["dense", "lazydense", "diag", "root", "lazysum"]
+
+
+def broadcastable(s, t):
+    try:
+        return tuple(torch.broadcast_shapes(tuple(s), tuple(t)))
+    except RuntimeError:
+        return None
+
+
+SW_PAIRS = [(s, t) for s in SW_SHAPES for t in SW_SHAPES if broadcastable(s, t) is not None]
+
+
+def pool_index(shape, b):
+    """position in the 3 x 3 pool of the slice that sits at batch index b of a distribution of batch shape `shape`
+    (rank 0: pool[0,0]; rank 1 (a,): pool[0,:a]; rank 2 (a,b): pool[:a,:b])"""
+    b = tuple(b)
+    return (0,) * (2 - len(shape)) + b
+
+
+def sub_index(shape, full, b):
+    """batch index into a tensor of batch shape `shape` that broadcasting to `full` puts at position b of the result"""
+    off = len(full) - len(shape)
+    return tuple(0 if shape[i] == 1 else b[off + i] for i in range(len(shape)))
+
+
+def pool_slice(shape):
+    return (0, 0) if len(shape) == 0 else ((0, slice(0, shape[0])) if len(shape) == 1 else (slice(0, shape[0]), slice(0, shape[1])))
+
+
+def pool(n, rep, seed):
+    """ingredients of 9 different Gaussians of event size n (a 3 x 3 batch) in representation rep"""
+    g = torch.Generator().manual_seed(seed * 104729 + 31 * n + SW_REPS.index(rep))
+    ing = dict(mean=dyadic(g, 3, 3, n))
+    A = dyadic(g, 3, 3, n, n, den=2, rng=3)
+    dense = A @ A.transpose(-1, -2) / 4 + torch.eye(n) * 1.5
+    if rep in ("dense", "lazydense"):
+        ing.update(dense=dense, cov=dense)
+    elif rep == "diag":
+        dg = dyadic(g, 3, 3, n, den=8, rng=6).abs() + 0.5
+        ing.update(dg=dg, cov=torch.diag_embed(dg))
+    elif rep == "root":
+        R = dyadic(g, 3, 3, n, n, den=2, rng=2) + 3 * torch.eye(n)
+        ing.update(R=R, cov=R @ R.transpose(-1, -2))
+    else:
+        dg = dyadic(g, 3, 3, n, den=8, rng=6).abs() + 0.25
+        ing.update(dense=dense, dg=dg, cov=dense + torch.diag_embed(dg))
+    return ing
+
+
+def pool_dist(ing, rep, shape):
+    """the distribution of batch shape `shape` built from the pool (constructed from sliced ingredients, not by indexing
+    a distribution); returns (dist, mean, dense covariance)"""
+    from gpytorch.distributions import MultivariateNormal as MVN
+    from linear_operator.operators import DenseLinearOperator, DiagLinearOperator, RootLinearOperator
+    sl = pool_slice(shape)
+    cut = lambda t: t[sl].clone()  # noqa: E731
+    mean, cov = cut(ing["mean"]), cut(ing["cov"])
+    if rep == "dense":
+        arg = cut(ing["dense"])
+    elif rep == "lazydense":
+        arg = DenseLinearOperator(cut(ing["dense"]))
+    elif rep == "diag":
+        arg = DiagLinearOperator(cut(ing["dg"]))
+    elif rep == "root":
+        arg = RootLinearOperator(cut(ing["R"]))
+    else:
+        arg = DenseLinearOperator(cut(ing["dense"])) + DiagLinearOperator(cut(ing["dg"]))
+    return MVN(mean, arg), mean, cov
+
+
+def shape_class(s, t):
+    """stable description of how two batch shapes relate (for failure keys)"""
+    full = broadcastable(s, t)
+    side = lambda x: "same" if tuple(x) == full else ("lower-rank" if len(x) < len(full) else "size1-expanded")  # noqa: E731
+    return "p-%s:q-%s" % (side(s), side(t))
+
+
+def run_broadcast(out, ctx):
+    """every broadcastable pair of batch shapes of rank 0..2 with sizes in {1,2,3} (123 ordered pairs, different ranks on
+    both sides included): KL(p || q), log_prob(value) and p + q, each element compared with the closed form of the two
+    slices that broadcasting puts at that position; expand to every admissible target."""
+    import gpytorch
+    from torch.distributions import kl_divergence
+    tier, seed = ctx["tier"], ctx["seed"]
+    ns = (1, 2, 3)
+    pools = {}
+
+    def get_pool(n, rep, which):
+        k = (n, rep, which)
+        if k not in pools:
+            pools[k] = pool(n, rep, seed * 3 + which + 1)
+        return pools[k]
+
+    def rep_pairs(n):
+        if tier != "quick":
+            return list(itertools.product(SW_REPS, SW_REPS))
+        rot = [(SW_REPS[i], SW_REPS[(i + 1 + (seed + n) % 4) % 5]) for i in range(5)]
+        return [("dense", "dense")] + [x for x in rot if x != ("dense", "dense")]
+
+    # ---- KL
+    memo, cases = {}, []
+
+    def want_idx(kind, key, term):
+        if (kind, key) not in memo:
+            memo[(kind, key)] = len(cases)
+            cases.append((kind, term))
+        return memo[(kind, key)]
+
+    kl_jobs = []
+    for n in ns:
+        for rp, rq in rep_pairs(n):
+            ip, iq = get_pool(n, rp, 0), get_pool(n, rq, 1)
+            for bp, bq in SW_PAIRS:
+                full = broadcastable(bp, bq)
+                p, mp, cp = pool_dist(ip, rp, bp)
+                q, mq, cq_ = pool_dist(iq, rq, bq)
+                case = dict(n=n, p=rp, q=rq, batch_p=list(bp), batch_q=list(bq), sweep=True)
+                out.case(case, n > 1 and bp != bq, label="kl:broadcast-sweep")
+                try:
+                    got = kl_divergence(p, q)
+                except Exception as e:
+                    out.fail("kl:broadcast:%s:%s-%s:raises-%s" % (shape_class(bp, bq), rp, rq, exc_name(e)),
+                             "kl_divergence raised %r for batch shapes %s and %s (broadcast: %s)" % (e, bp, bq, full), case)
+                    continue
+                refs = []
+                for b in bidx_iter(full):
+                    i, j = pool_index(bp, sub_index(bp, full, b)), pool_index(bq, sub_index(bq, full, b))
+                    refs.append(want_idx("kl", (n, rp, rq, i, j), "(%d%%nat, %s, %s, %s, %s)" % (
+                        n, C.qc_vec(ip["mean"][i].tolist()), C.qc_mat(ip["cov"][i].tolist()),
+                        C.qc_vec(iq["mean"][j].tolist()), C.qc_mat(iq["cov"][j].tolist()))))
+                kl_jobs.append((case, got, full, refs))
+    kl_terms = [t for k, t in cases]
+    res = C.coq_run_cases("C10_klb", IMPORTS, "Definition run := run_kl.", kl_terms, shard=max(8, len(kl_terms) // 16 + 1))
+    vals = []
+    for r in res:
+        rd = C.Reader(r)
+        vals.append(float(rd.expr()) if rd.int() == 1 else float("nan"))
+    for case, got, full, refs in kl_jobs:
+        want = torch.tensor([vals[i] for i in refs]).reshape(full)
+        if not (tuple(got.shape) == tuple(full) and torch.allclose(got, want, atol=1e-8, rtol=1e-9)):
+            bp, bq = tuple(case["batch_p"]), tuple(case["batch_q"])
+            out.fail("kl:broadcast:%s:%s-%s" % (shape_class(bp, bq), case["p"], case["q"]),
+                     "kl_divergence of batch shapes %s and %s is not the closed form of the broadcast slices (shape %s)" % (bp, bq, full),
+                     case, impl=got, model=want)
+
+    # ---- log_prob: distribution batch shape x value batch shape
+    memo.clear()
+    cases.clear()
+    lp_jobs = []
+    for n in (2, 3):
+        g = torch.Generator().manual_seed(seed * 17 + n)
+        V = dyadic(g, 3, 3, n)
+        for rep in SW_REPS:
+            ing = get_pool(n, rep, 0)
+            for bd, bv in SW_PAIRS:
+                full = broadcastable(bd, bv)
+                d, mean, cov = pool_dist(ing, rep, bd)
+                v = V[pool_slice(bv)].clone()
+                refs = []
+                for b in bidx_iter(full):
+                    i, j = pool_index(bd, sub_index(bd, full, b)), pool_index(bv, sub_index(bv, full, b))
+                    refs.append(want_idx("lp", (n, rep, i, j), "(%d%%nat, %s, %s, %s)" % (
+                        n, C.qc_vec(ing["mean"][i].tolist()), C.qc_mat(ing["cov"][i].tolist()), C.qc_vec(V[j].tolist()))))
+                for fast in (True, False):
+                    case = dict(n=n, rep=rep, batch_shape=list(bd), value_shape=list(bv) + [n], fast=fast, sweep=True)
+                    out.case(case, bd != bv, label="log_prob:broadcast-sweep")
+                    try:
+                        with gpytorch.settings.fast_computations(log_prob=fast), gpytorch.settings.max_cholesky_size(10 ** 6):
+                            got = d.log_prob(v)
+                    except Exception as e:
+                        out.fail("log_prob:broadcast:%s:%s:raises-%s:%s" % (shape_class(bd, bv).replace("p-", "d-").replace("q-", "v-"), rep,
+                                                                          exc_name(e), "fast" if fast else "cholesky"),
+                                 "log_prob raised %r for distribution batch %s and value batch %s" % (e, bd, bv), case)
+                        continue
+                    lp_jobs.append((case, got, full, refs))
+    lp_terms = [t for k, t in cases]
+    res = C.coq_run_cases("C10_lpb", IMPORTS, "Definition run := run_logprob.", lp_terms, shard=max(8, len(lp_terms) // 16 + 1))
+    vals = []
+    for r in res:
+        rd = C.Reader(r)
+        vals.append(float(rd.expr()) if rd.int() == 1 else float("nan"))
+    for case, got, full, refs in lp_jobs:
+        want = torch.tensor([vals[i] for i in refs]).reshape(full)
+        if not (tuple(got.shape) == tuple(full) and torch.allclose(got, want, atol=1e-8, rtol=1e-9)):
+            bd, bv = tuple(case["batch_shape"]), tuple(case["value_shape"][:-1])
+            out.fail("log_prob:broadcast:%s:%s:%s" % (shape_class(bd, bv).replace("p-", "d-").replace("q-", "v-"), case["rep"],
+                                                       "fast" if case["fast"] else "cholesky"),
+                     "log_prob with distribution batch %s and value batch %s is not the density of the broadcast slices" % (bd, bv),
+                     case, impl=got, model=want)
+
+    # ---- p + q and expand (exact copies: compared with torch broadcasting of the ingredients)
+    for n in (1, 3):
+        for rp, rq in rep_pairs(n):
+            ip, iq = get_pool(n, rp, 0), get_pool(n, rq, 1)
+            for bp, bq in SW_PAIRS:
+                full = broadcastable(bp, bq)
+                p, mp, cp = pool_dist(ip, rp, bp)
+                q, mq, cq_ = pool_dist(iq, rq, bq)
+                case = dict(n=n, p=rp, q=rq, batch_p=list(bp), batch_q=list(bq), what="sum", sweep=True)
+                out.case(case, bp != bq, label="affine:sum:broadcast-sweep")
+                try:
+                    s = p + q
+                    sm, sc, sv, sb = s.mean, s.covariance_matrix, s.variance, tuple(s.batch_shape)
+                except Exception as e:
+                    out.fail("sum:broadcast:%s:%s+%s:raises-%s" % (shape_class(bp, bq), rp, rq, exc_name(e)),
+                             "p + q raised %r for batch shapes %s and %s" % (e, bp, bq), case)
+                    continue
+                wm, wc = (mp + mq).expand(*full, n), (cp + cq_).expand(*full, n, n)
+                if not (sb == full and same(sm, wm, full + (n,)) and same(sc, wc, full + (n, n))
+                        and same(sv, wc.diagonal(dim1=-1, dim2=-2), full + (n,))):
+                    out.fail("sum:broadcast:%s:%s+%s" % (shape_class(bp, bq), rp, rq),
+                             "p + q for batch shapes %s and %s is not (m1 + m2, C1 + C2) broadcast to %s" % (bp, bq, full), case,
+                             impl=[sm, sc], model=[wm, wc])
+        for rep in SW_REPS:
+            ing = get_pool(n, rep, 0)
+            for bd, tgt in SW_PAIRS:
+                if broadcastable(bd, tgt) != tuple(tgt):
+                    continue
+                for lead in ((), (2,)):
+                    to = lead + tuple(tgt)
+                    d, mean, cov = pool_dist(ing, rep, bd)
+                    case = dict(n=n, rep=rep, batch_shape=list(bd), what="expand", to=list(to), sweep=True)
+                    out.case(case, tuple(bd) != to, label="expand:broadcast-sweep")
+                    try:
+                        ex = d.expand(torch.Size(to))
+                        ok = tuple(ex.batch_shape) == to and same(ex.mean, mean, to + (n,)) and same(ex.covariance_matrix, cov, to + (n, n)) \
+                            and same(ex.variance, cov.diagonal(dim1=-1, dim2=-2), to + (n,))
+                    except Exception as e:
+                        out.fail("expand:broadcast:%s:raises-%s" % (rep, exc_name(e)), "expand(%s) of batch shape %s raised %r" % (to, bd, e), case)
+                        continue
+                    if not ok:
+                        out.fail("expand:broadcast:%s" % rep, "expand(%s) of batch shape %s changes mean / covariance / batch_shape" % (to, bd), case)
+
+
 # --------------------------------------------------------------------------- entry points
 
 def run(out, ctx):
     import traceback
     import time
-    for part in (run_sampling_affine, run_density, run_getitem):
+    for part in (run_sampling_affine, run_density, run_broadcast, run_getitem):
         t0 = time.time()
         try:
             part(out, ctx)
